@@ -96,7 +96,8 @@ type c02Bridge struct {
 	ps   [][]*transfer.TransferProposal
 }
 
-func (b *c02Bridge) IsProposalExecuted(p *transfer.TransferProposal) (bool, error) { return false, nil }
+// the destination reports every proposal as executed meanwhile: the signature assembly / submission must not care
+func (b *c02Bridge) IsProposalExecuted(p *transfer.TransferProposal) (bool, error) { return true, nil }
 func (b *c02Bridge) ExecuteProposals(ps []*transfer.TransferProposal, sig []byte, opts transactor.TransactOptions) (*ethCommon.Hash, error) {
 	b.mu.Lock()
 	defer b.mu.Unlock()
@@ -123,7 +124,7 @@ type c02Pallet struct {
 	ps   [][]*transfer.TransferProposal
 }
 
-func (b *c02Pallet) IsProposalExecuted(p *transfer.TransferProposal) (bool, error) { return false, nil }
+func (b *c02Pallet) IsProposalExecuted(p *transfer.TransferProposal) (bool, error) { return true, nil }
 func (b *c02Pallet) ExecuteProposals(ps []*transfer.TransferProposal, sig []byte) (types.Hash, *author.ExtrinsicStatusSubscription, error) {
 	b.sigs = append(b.sigs, append([]byte{}, sig...))
 	b.ps = append(b.ps, ps)
